@@ -86,13 +86,16 @@ def _wchunk(args):
     agg = Agg()
     bad = []
     digests = {}
+    seen = _W.setdefault("seen", [])
     for s in seeds:
         r = mod.run_case(s, tier=tier, known=known)
         _summarise(mod, r, agg)
         digests[s] = r["digest"]
         if r["violations"]:
             bad.append({"seed": s, "world": r["world"], "ops": r["ops"], "violations": r["violations"],
-                        "digest": r["digest"], **({"extra": r["extra"]} if "extra" in r else {})})
+                        "digest": r["digest"], "pre_seeds": list(seen)[-400:] if len(bad) < 2 else [],
+                        **({"extra": r["extra"]} if "extra" in r else {})})
+        seen.append(s)
         if want_samples and len(agg.samples) < 3 and (r.get("nontrivial") or s == seeds[0]):
             agg.sample({"seed": s, "world": r["world"], "ops": r["ops"], "signature": r["signature"],
                         "known": [k["fingerprint"] for k in r.get("known", [])][:3]})
@@ -221,8 +224,77 @@ def minimise(mod, case, target_fp, budget_s=60, known=()):
     return cur, tries
 
 
+def _case_doc(pid, case, fp):
+    doc = {"property": pid, "fingerprint": fp, "seed": case.get("seed", 0), "world": case["world"], "ops": case["ops"]}
+    for k in ("extra", "pre_seeds", "tier"):
+        if k in case:
+            doc[k] = case[k]
+    return doc
+
+
+def fresh_eval(pid, case, fp, tmpdir, tag):
+    """Does `case` violate `fp` when executed alone in a fresh interpreter?"""
+    path = os.path.join(tmpdir, f"cand-{tag}.json")
+    with open(path, "w") as f:
+        json.dump(_case_doc(pid, case, fp), f)
+    env = dict(os.environ, PYTHONHASHSEED="777")
+    try:
+        p = subprocess.run([sys.executable, os.path.join(VERIF_DIR, "check"), pid, "--replay", path],
+                           env=env, capture_output=True, text=True, timeout=900)
+    except subprocess.TimeoutExpired:
+        return False
+    return p.returncode == 1 and "VIOLATION" in p.stdout
+
+
+def minimise_fresh(mod, pid, case, fp, budget_s=120, nproc=16):
+    """ddmin where every candidate runs in its own fresh interpreter (candidates of a round in parallel).
+    Used when the code under test keeps state between histories, which makes in-process shrinking unsound."""
+    import tempfile
+    from concurrent.futures import ThreadPoolExecutor
+
+    t0 = time.time()
+    tries = 0
+    with tempfile.TemporaryDirectory(prefix="verif-min-") as td, ThreadPoolExecutor(max_workers=nproc) as ex:
+        def batch(cands):
+            nonlocal tries
+            cands = cands[: 2 * nproc]
+            tries += len(cands)
+            futs = [ex.submit(fresh_eval, pid, c, fp, td, f"{tries}-{i}") for i, c in enumerate(cands)]
+            for c, f in zip(cands, futs):
+                if f.result():
+                    return c
+            return None
+
+        cur = copy.deepcopy(case)
+        if batch([cur]) is None:
+            return None, tries
+        for key in ("pre_seeds", "ops"):
+            if not cur.get(key):
+                continue
+            n = 2
+            while time.time() - t0 < budget_s and len(cur[key]) >= 1:
+                items = cur[key]
+                size = max(1, len(items) // n)
+                cands = [{**cur, key: items[:st] + items[st + size:]} for st in range(0, len(items), size)]
+                got = batch(cands)
+                if got is not None:
+                    cur = got
+                    n = max(n - 1, 2)
+                    continue
+                if size == 1:
+                    break
+                n = min(len(items), n * 2)
+        while time.time() - t0 < budget_s:
+            cands = [{**cur, **c} for c in mod.shrink_candidates(cur)]
+            got = batch(cands) if cands else None
+            if got is None:
+                break
+            cur = got
+    return cur, tries
+
+
 def write_replay(pid, case, viol, seed, digest):
-    d = os.path.join(VERIF_DIR, "replays", pid)
+    d = os.path.join(os.environ.get("VERIF_REPLAY_DIR") or os.path.join(VERIF_DIR, "replays"), pid)
     os.makedirs(d, exist_ok=True)
     safe = viol["fingerprint"].replace("/", "_").replace("@", "-").replace(":", "_").replace(" ", "")
     path = os.path.join(d, f"{pid}-seed{seed}-{safe}.json")
@@ -231,8 +303,9 @@ def write_replay(pid, case, viol, seed, digest):
         "world": case["world"], "ops": case["ops"], "detail": viol["detail"], "step": viol["step"],
         "digest": digest,
     }
-    if "extra" in case:
-        doc["extra"] = case["extra"]
+    for k in ("extra", "pre_seeds", "tier"):
+        if k in case:
+            doc[k] = case[k]
     with open(path, "w") as f:
         json.dump(doc, f, indent=1, sort_keys=True)
         f.write("\n")
@@ -248,10 +321,13 @@ def replay_file(pid, path, quiet=False):
     case = {"world": doc["world"], "ops": doc["ops"], "seed": doc.get("seed", 0)}
     if "extra" in doc:
         case["extra"] = doc["extra"]
+    # histories that ran earlier in the same (simulated) process, regenerated from their seeds
+    for ps in doc.get("pre_seeds", []):
+        mod.run_case(ps, tier=doc.get("tier", "quick"), known=known_fingerprints(pid))
     r = mod.run_case(doc.get("seed", 0), case=case, known=known_fingerprints(pid))
     fps = [v["fingerprint"] for v in r["violations"]]
     ok = doc["fingerprint"] in fps
-    same_digest = r["digest"] == doc.get("digest")
+    same_digest = r["digest"] == doc.get("digest") or "digest" not in doc
     return ok, same_digest, r
 
 
